@@ -12,7 +12,12 @@ mod c04;
 mod c05;
 mod c06;
 mod c08;
+mod c09;
 mod c10;
+mod c11;
+mod c12;
+mod kern;
+mod pageheap;
 mod codec;
 mod c13;
 mod c14;
@@ -21,6 +26,9 @@ mod c18;
 mod c19;
 
 use common::*;
+
+#[global_allocator]
+static GLOBAL: pageheap::PageHeap = pageheap::PageHeap;
 use std::time::Instant;
 
 fn usage() -> ! {
@@ -90,7 +98,10 @@ fn main() {
         "C05" => (c05::run, c05::replay),
         "C06" => (c06::run, c06::replay),
         "C08" => (c08::run, c08::replay),
+        "C09" => (c09::run, c09::replay),
         "C10" => (c10::run, c10::replay),
+        "C11" => (c11::run, c11::replay),
+        "C12" => (c12::run, c12::replay),
         "C13" => (c13::run, c13::replay),
         "C14" => (c14::run, c14::replay),
         "C15" => (c15::run, c15::replay),
